@@ -72,12 +72,13 @@ def run_check(spec, tier, seed, log=print):
     functions = {}
     samples_out = []
     harness_errors = []
+    crashed = []  # shards whose worker died / exceeded the wall cap: undecided, not an error by itself
     srcload_stats = None
     for r in results:
         job = r["job"]
         if not r.get("ok"):
             shards.append({"params": job["params"], "harness": job["harness"], "decided": False, "error": r.get("error", "")[-400:]})
-            harness_errors.append(f"shard crashed: {json.dumps(job['params'])[:120]}: {r.get('error', '')[-200:]}")
+            crashed.append(f"shard crashed: {json.dumps(job['params'])[:120]}: {r.get('error', '')[-200:]}")
             continue
         srcload_stats = r.get("srcload") or srcload_stats
         totals["paths"] += r["paths"]
@@ -201,6 +202,8 @@ def run_check(spec, tier, seed, log=print):
             out_lines.append(f"VIOLATION property={spec.prop} replay={p}")
 
     undecided = [s for s in shards if not s["decided"]]
+    if shards and (len(crashed) * 4 > len(shards) or not any(s["decided"] for s in shards)):
+        harness_errors.extend(crashed[:10] or ["no shard could be decided"])
     wall = round(time.time() - t0, 1)
     func_list = sorted(functions.items(), key=lambda kv: -kv[1])
     coverage = {
